@@ -877,6 +877,8 @@ class SDMXFullSettings(SDMXBaseSettings):
                 except KeyError:
                     raise NotImplementedError("Only support ratio=1,1.5,2, pow=0,1,2")
                 norms.append(DensityNormalizer(1.0 / u, power=(-1 - n / 3.0)))
+        # same feature order as get_feat_usps: all l=0 terms first, then all l=1 terms
+        for ratio in self.ratios:
             for n, rdr in self.iterate_l1_terms(ratio):
                 try:
                     u = known_dict[ratio, n, rdr]
